@@ -42,12 +42,23 @@ inductive AExpr where
   | atom (cs : List Comment) (name : Str)
   | unary (cs : List Comment) (u : UOp) (e : AExpr)
   | binary (cs : List Comment) (o : BinOp) (ocs : List Comment) (l r : AExpr)
+  /-- `obj.name` (`FieldAccess` without explicit type arguments); `ncs` = comments of the name. -/
+  | field (cs : List Comment) (obj : AExpr) (ncs : List Comment) (name : Str)
+  /-- `callee(args)`; `scs` / `ecs` = start / ending comments of the argument list; `args` is a list
+  built from `argsNil` / `argsCons`. -/
+  | call (cs : List Comment) (callee : AExpr) (scs : List Comment) (args : AExpr) (ecs : List Comment)
+  | argsNil
+  | argsCons (e : AExpr) (rest : AExpr)
   deriving Repr, DecidableEq, Inhabited
 
 def AExpr.prec : AExpr → Nat
   | .atom _ _ => 0
   | .unary _ _ _ => 2
   | .binary _ o _ _ _ => 4 + o.pprec
+  | .field _ _ _ _ => 1
+  | .call _ _ _ _ _ => 1
+  | .argsNil => 0
+  | .argsCons _ _ => 0
 
 /-- `BinaryOperator::kind_str` / `UnaryOperator::kind_str`. -/
 def opStr : BinOp → Str
@@ -76,22 +87,117 @@ def shortcutOkA (o : BinOp) (r : AExpr) : Bool :=
     (o == .plus || o == .mul || o == .and || o == .or) && o' == o && r1.prec != 4 + o.pprec
   | _ => false
 
+/-- `associated_comments_doc(.., Flattened, add_final_line_break)` (33-80). -/
+def commentsDocFlattened (cs : List Comment) (addFinal : Bool) : Option Doc :=
+  let docs := cs.flatMap commentDocs
+  if docs.isEmpty then none else
+  let soft := decide (docs.getLast? = some .line)
+  let main := concatV (if soft then docs.dropLast else docs)
+  let main := (flatten main).getD main
+  some (if addFinal && soft then .concat main .line else main)
+
+/-- `create_member_preceding_comment_docs` (source_printer.rs). -/
+def memberPre (flat : Bool) (cs : List Comment) : Doc :=
+  if flat then
+    match commentsDocFlattened cs false with
+    | some d => .concat (.text [' ']) d
+    | none => .nil
+  else
+    match SamVerif.Imports.commentsDoc cs true with
+    | some d => .concat .lineHard d
+    | none => .lineHard
+
+/-- The chainable IR of `create_chainable_ir_docs`: base document and the members
+(comments of the member name, documents of the member). -/
+abbrev ChainIR := Doc × List (List Comment × List Doc)
+
+def extendField (ir : ChainIR) (ncs : List Comment) (name : Str) : ChainIR :=
+  (ir.1, ir.2 ++ [(ncs, [.nstext name, .nil])])
+
+/-- The `Call` arm: the argument list joins the last member, or the base when there is none. -/
+def extendCall (ir : ChainIR) (ad : Doc) : ChainIR :=
+  match ir.2.getLast? with
+  | some last => (ir.1, ir.2.dropLast ++ [(last.1, last.2 ++ [ad])])
+  | none => (.concat ir.1 ad, [])
+
+def seg (flat : Bool) (m : List Comment × List Doc) : List Doc :=
+  [memberPre flat m.1, .text ['.']] ++ m.2
+
+/-- `create_doc_for_dotted_chain`: the fully expanded alternative … -/
+def chainExpanded0 (ir : ChainIR) : Doc :=
+  concatV [ir.1, .nest 2 (concatV (ir.2.flatMap (seg false)))]
+
+/-- … preferred over it, the "less expanded" one (first member on the base's line) … -/
+def chainExpanded (ir : ChainIR) : Doc :=
+  match ir.2 with
+  | [] => chainExpanded0 ir
+  | first :: rest =>
+    .union (concatV [ir.1, memberPre true first.1, .text ['.'], concatV first.2,
+      .nest 2 (concatV (rest.flatMap (seg false)))]) (chainExpanded0 ir)
+
+/-- … and, if it has no hard line, the flattened one first. -/
+def dottedChain (ir : ChainIR) : Doc :=
+  match flatten (concatV ([ir.1] ++ ir.2.flatMap (seg true))) with
+  | some f => .union f (chainExpanded ir)
+  | none => chainExpanded ir
+
+/-- `comma_sep_list` with ending comments (source_printer.rs:101-133). -/
+def commaSepEnding (ds : List Doc) (ecs : List Comment) : Doc :=
+  let base := SamVerif.Imports.commaSep ds
+  match SamVerif.Imports.commentsDoc ecs false with
+  | some cd => if ds.isEmpty then cd else concatV [base, .text [','], .line, cd]
+  | none => base
+
+/-- `create_doc_for_parenthesized_expression_list`. -/
+def argsDoc (scs : List Comment) (ds : List Doc) (ecs : List Comment) : Doc :=
+  optPreceding scs (parenDoc (commaSepEnding ds ecs))
+
+/-- `ends_with_member_name` (source_printer.rs): `a.b < c` would be read as the start of type
+arguments, so a left operand of `<` that ends with a member name keeps its parentheses. -/
+def endsMember : AExpr → Bool
+  | .field _ _ _ _ => true
+  | .unary _ _ e => decide (e.prec < 2) && endsMember e
+  | .binary _ _ _ _ r => endsMember r
+  | _ => false
+
+def unaryDoc (cs : List Comment) (u : UOp) (eprec : Nat) (d : Doc) : Doc :=
+  optPreceding cs (.concat (.text (uopStr u)) (if eprec ≥ 2 then parenDoc d else d))
+
+def binaryDoc (cs : List Comment) (o : BinOp) (ocs : List Comment) (l r : AExpr) (dl dr : Doc) : Doc :=
+  let p := 4 + o.pprec
+  let subl := if l.prec ≥ p then parenDoc dl else dl
+  let subr := if r.prec ≥ p then parenDoc dr else dr
+  let mid := [opCommentsDoc ocs, operatorDoc o]
+  optPreceding cs
+    (if o = .lt ∧ endsMember l = true then concatV ([parenDoc dl] ++ mid ++ [subr])
+     else if l.prec = p then concatV ([dl] ++ mid ++ [subr])
+     else if r.prec = p ∧ shortcutOkA o r = true then concatV ([subl] ++ mid ++ [dr])
+     else concatV ([subl] ++ mid ++ [subr]))
+
+mutual
 def docOf : AExpr → Doc
   | .atom cs name => optPreceding cs (.nstext name)
-  | .unary cs u e =>
-    let d := docOf e
-    optPreceding cs (.concat (.text (uopStr u)) (if e.prec ≥ 2 then parenDoc d else d))
-  | .binary cs o ocs l r =>
-    let p := 4 + o.pprec
-    let dl := docOf l
-    let dr := docOf r
-    let subl := if l.prec ≥ p then parenDoc dl else dl
-    let subr := if r.prec ≥ p then parenDoc dr else dr
-    let mid := [opCommentsDoc ocs, operatorDoc o]
-    optPreceding cs
-      (if l.prec = p then concatV ([dl] ++ mid ++ [subr])
-       else if r.prec = p ∧ shortcutOkA o r = true then concatV ([subl] ++ mid ++ [dr])
-       else concatV ([subl] ++ mid ++ [subr]))
+  | .unary cs u e => unaryDoc cs u e.prec (docOf e)
+  | .binary cs o ocs l r => binaryDoc cs o ocs l r (docOf l) (docOf r)
+  | .field cs obj ncs name => optPreceding cs (dottedChain (extendField (chainIR obj) ncs name))
+  | .call cs callee scs args ecs =>
+    optPreceding cs (dottedChain (extendCall (chainIR callee) (argsDoc scs (argDocs args) ecs)))
+  | .argsNil => .nil
+  | .argsCons _ _ => .nil
+/-- `create_chainable_ir_docs`; the comments of inner chain nodes are not looked at. The base is
+parenthesised iff its precedence exceeds that of a member access / call (1). -/
+def chainIR : AExpr → ChainIR
+  | .field _ obj ncs name => extendField (chainIR obj) ncs name
+  | .call _ callee scs args ecs => extendCall (chainIR callee) (argsDoc scs (argDocs args) ecs)
+  | .atom cs name => (optPreceding cs (.nstext name), [])
+  | .unary cs u e => (parenDoc (unaryDoc cs u e.prec (docOf e)), [])
+  | .binary cs o ocs l r => (parenDoc (binaryDoc cs o ocs l r (docOf l) (docOf r)), [])
+  | .argsNil => (.nil, [])
+  | .argsCons _ _ => (.nil, [])
+def argDocs : AExpr → List Doc
+  | .argsCons e rest => docOf e :: argDocs rest
+  | _ => []
+end
 
 /-- What is printed: comments and token spellings, in order. -/
 inductive Item where
@@ -102,17 +208,52 @@ inductive Item where
 def wrapP (b : Bool) (xs : List Item) : List Item :=
   if b then [.tok ['(']] ++ xs ++ [.tok [')']] else xs
 
+def unaryItems (cs : List Comment) (u : UOp) (eprec : Nat) (xs : List Item) : List Item :=
+  cs.map .comment ++ [.tok (uopStr u)] ++ wrapP (decide (eprec ≥ 2)) xs
+
+def binaryItems (cs : List Comment) (o : BinOp) (ocs : List Comment) (l r : AExpr) (xl xr : List Item) :
+    List Item :=
+  let p := 4 + o.pprec
+  let mid := ocs.map .comment ++ [.tok (opStr o)]
+  cs.map .comment ++
+    (if o = .lt ∧ endsMember l = true then wrapP true xl ++ mid ++ wrapP (decide (r.prec ≥ p)) xr
+     else if l.prec = p then xl ++ mid ++ wrapP (decide (r.prec ≥ p)) xr
+     else if r.prec = p ∧ shortcutOkA o r = true then wrapP (decide (l.prec ≥ p)) xl ++ mid ++ xr
+     else wrapP (decide (l.prec ≥ p)) xl ++ mid ++ wrapP (decide (r.prec ≥ p)) xr)
+
+/-- Items of an argument list: the printer adds a `,` in front of the ending comments of a
+non-empty list. -/
+def argsItems (scs : List Comment) (xs : List (List Item)) (ecs : List Comment) : List Item :=
+  let rec join : List (List Item) → List Item
+    | [] => []
+    | [x] => x
+    | x :: y :: rest => x ++ [.tok [',']] ++ join (y :: rest)
+  scs.map .comment ++ [.tok ['(']] ++ join xs ++
+    (if ecs.isEmpty then [] else (if xs.isEmpty then [] else [.tok [',']]) ++ ecs.map .comment) ++
+    [.tok [')']]
+
+mutual
 def printA : AExpr → List Item
   | .atom cs name => cs.map .comment ++ [.tok name]
-  | .unary cs u e => cs.map .comment ++ [.tok (uopStr u)] ++ wrapP (decide (e.prec ≥ 2)) (printA e)
-  | .binary cs o ocs l r =>
-    let p := 4 + o.pprec
-    let mid := ocs.map .comment ++ [.tok (opStr o)]
-    cs.map .comment ++
-      (if l.prec = p then printA l ++ mid ++ wrapP (decide (r.prec ≥ p)) (printA r)
-       else if r.prec = p ∧ shortcutOkA o r = true then
-         wrapP (decide (l.prec ≥ p)) (printA l) ++ mid ++ printA r
-       else wrapP (decide (l.prec ≥ p)) (printA l) ++ mid ++ wrapP (decide (r.prec ≥ p)) (printA r))
+  | .unary cs u e => unaryItems cs u e.prec (printA e)
+  | .binary cs o ocs l r => binaryItems cs o ocs l r (printA l) (printA r)
+  | .field cs obj ncs name => cs.map .comment ++ chainItems obj ++ ncs.map .comment ++ [.tok ['.'], .tok name]
+  | .call cs callee scs args ecs => cs.map .comment ++ chainItems callee ++ argsItems scs (argItems args) ecs
+  | .argsNil => []
+  | .argsCons _ _ => []
+/-- Items of a chain member position: the comments of inner chain nodes are not printed. -/
+def chainItems : AExpr → List Item
+  | .field _ obj ncs name => chainItems obj ++ ncs.map .comment ++ [.tok ['.'], .tok name]
+  | .call _ callee scs args ecs => chainItems callee ++ argsItems scs (argItems args) ecs
+  | .atom cs name => cs.map .comment ++ [.tok name]
+  | .unary cs u e => wrapP true (unaryItems cs u e.prec (printA e))
+  | .binary cs o ocs l r => wrapP true (binaryItems cs o ocs l r (printA l) (printA r))
+  | .argsNil => []
+  | .argsCons _ _ => []
+def argItems : AExpr → List (List Item)
+  | .argsCons e rest => printA e :: argItems rest
+  | _ => []
+end
 
 /-- The non-whitespace characters of the printed items (comment delimiters `//`, `/*`, `*/` of the
 comment's kind included, continuation leaders not). -/
